@@ -393,7 +393,8 @@ def oracle_entry_points(jinja2, ts, main, data, tmpdir, ctx, autoescape=False):
             return "generate() after str(module) differs from render()"
         if not data:
             # history: the cached template's globals are updated by a later get_template(name, globals=...)
-            for gval in ("G1", "G2", "G1"):
+            # (values that compare equal but render differently included: 1 == True == 1.0, 0 == False == -0.0)
+            for gval in ("G1", "G2", "G1", 1, True, 1.0, 0, False, -0.0, 0.0, "1"):
                 tg = env.get_template(main, globals={"gv": gval})
                 if str(tg.module) != tg.render():
                     return ("str(template.module) differs from render() after get_template(name, globals=...) "
